@@ -43,7 +43,7 @@ def _snapshot_views(proc):
 
 
 def run_with_crashes(make_proc, crash_points, resume_for_wait, transport=None, budget=4000, max_restores=64, persister=None, lag=0, resume_mode='plain',
-                     exit_crashes=()):
+                     exit_crashes=(), other_loop_current=False):
     """make_proc(loop) -> process.  resume_for_wait(j) -> list of resume args for the j-th wait (0-based).
 
     transport(bundle) -> bundle: how the snapshot travels (default: pickle round trip).
@@ -73,7 +73,19 @@ def run_with_crashes(make_proc, crash_points, resume_for_wait, transport=None, b
                     proc = make_proc(drv.loop)
                 else:
                     bundle = persister.load_checkpoint(snapshot[0]) if persister is not None else transport(snapshot[0])
-                    proc = bundle.unbundle(plumpy.LoadSaveContext(loop=drv.loop))
+                    if other_loop_current:
+                        # the checkpoint is loaded for the fresh loop (given in the load context) while some other loop is the
+                        # thread's current one
+                        import asyncio
+                        other = asyncio.new_event_loop()
+                        asyncio.set_event_loop(other)
+                        try:
+                            proc = bundle.unbundle(plumpy.LoadSaveContext(loop=drv.loop))
+                        finally:
+                            asyncio.set_event_loop(drv.loop)
+                            other.close()
+                    else:
+                        proc = bundle.unbundle(plumpy.LoadSaveContext(loop=drv.loop))
                     restores += 1
                     now = _snapshot_views(proc)
                     if at_checkpoint[0] is not None and now != at_checkpoint[0]:
